@@ -248,6 +248,9 @@ def gen_tle(rng):
         if abs(bm) >= 100000:
             bm //= 10
             be += 1
+        while be < -9:          # one exponent column: smaller values are written with a non-normalised mantissa
+            bm = int(bm / 10)
+            be += 1
         if bm == 0:
             be = 0
     ndot = round(rng.uniform(-1e-5, 2e-4) * (n / 16) ** 2, 8)
